@@ -5,7 +5,7 @@
 (* and with a location buffer.  "walk" lines: one table (optionally a runtime     *)
 (* state) and what walk_ports reported for three name-buffer prefixes, whether    *)
 (* each reported address reaches its port, and what Ports::apropos returns.       *)
-EXTENDS PortTree, Json, IOUtils
+EXTENDS PortTree, Metadata, Json, IOUtils
 Log == ndJsonDeserialize(IOEnv.TRACE)
 VARIABLE l
 NB == 64
@@ -63,6 +63,17 @@ RunFails(r, run) ==
 WalkFails(r) ==
   IF r.sig # 0 THEN {"crash_or_hang"}
   ELSE UNION { RunFails(r, r.runs[i]) : i \in 1..Len(r.runs) }
-Fails(r) == IF r.k = "dispatch" THEN DispatchFails(r) ELSE WalkFails(r)
+\* ------------------------------------------------------------------ C17
+MetaFails(r) ==
+  IF r.sig # 0 THEN {"crash_or_hang"}
+  ELSE {k \in {"oob", "block", "iterate", "length", "lookup", "find"} :
+        ~ CASE k = "oob" -> r.asan = 0
+            [] k = "block" -> r.block = Block(r.es)
+            [] k = "iterate" -> r.iter = Pairs(r.es)
+            [] k = "length" -> r.length = Length(r.es)
+            [] k = "lookup" -> \A i \in 1..Len(r.queries) : LET q == r.queries[i]  e == Lookup(r.es, q.key) IN q.some = e.some /\ (e.some => q.val = e.val)
+            [] k = "find" -> \A i \in 1..Len(r.queries) : r.queries[i].found = HasKey(r.es, r.queries[i].key) }
+
+Fails(r) == CASE r.k = "dispatch" -> DispatchFails(r) [] r.k = "walk" -> WalkFails(r) [] r.k = "meta" -> MetaFails(r)
 Judge == l < 0 \/ LET f == Fails(Log[l]) IN f = {} \/ PrintT(<<"REJECT", l, f, FirstBad(Log[l])>>)
 =============================================================================
